@@ -413,13 +413,13 @@ def _hist_build(hist, work, fnameA, files, fps, cfgA, res=None, judge_from=0):
         tag = f"{pre[0]}{'' if pre[0] != 'ok' else ':' + pre[1]}|load={int(load)},save={int(save)}"
         foreign = pre[0] == "ok" and pre[1] in ("B", "Bg")
         if exc is not None:
-            if foreign and load:
+            if foreign:  # a genuinely mismatching file lies there: an error is an allowed answer (whatever the flags)
                 res.count("hist_mismatch_raised")
             else:
                 res.fail(f"C11|history|{tag}|raised|{type(exc).__name__}", f"from_config raised {type(exc).__name__}: {str(exc)[:150]} in {desc}", rd)
             continue
         got = fp(ds)
-        ok_data = got == fps["A"] or (load and pre == ("ok", "Ac") and got == fps["Ac"])
+        ok_data = got == fps["A"] or (pre == ("ok", "Ac") and got == fps["Ac"])  # the maze count is exempt from the comparison
         if not ok_data:
             res.fail(f"C11|history|{tag}|wrong_data", f"from_config returned {len(ds)} mazes that are not the requested dataset in {desc}", rd)
             continue
@@ -427,9 +427,8 @@ def _hist_build(hist, work, fnameA, files, fps, cfgA, res=None, judge_from=0):
             # a loadable file holding what was returned must be there (whether freshly saved or the one that was loaded)
             if post[0] not in ("ok",) or fps[post[1]] != got:
                 res.fail(f"C11|history|{tag}|file_left_{post[0]}", f"after a saving request the cache slot is {post} although {len(ds)} mazes were returned, in {desc}", rd)
-        else:
-            if post != pre:
-                res.fail(f"C11|history|{tag}|nosave_request_changed_file", f"a request with save_local=False changed the cache slot, in {desc}", rd)
+        elif post != pre:
+            res.count("hist_nosave_request_changed_slot")  # observed, not judged: the property does not speak about save_local=False
     return _classify(path, fps)
 
 
